@@ -365,6 +365,30 @@ def run(rep, tier):
     # ---- R15.10 the tree built from arbitrary text has bounded depth
     nesting_bound(rep, fb, 'R15.10')
     payload_atoms_are_data(rep, fb, 'R15.11')
+    # ---- R15.12 a refused text leaves nothing behind
+    rep.rule('R15.12', 'failing cleanly includes giving the token buffer back: in Data::fromJSON every path from the allocation of the token array to an exit of the function - the throws for refused texts included - passes a free of it (or the allocation is owned by an object)')
+    from .. import path as pathm12
+    g12 = pathm12.EHCFG(fj) if hasattr(pathm12, 'EHCFG') else cfgm.CFG(fj)
+    mallocs12 = [n for n in fj.walk() if n.get('callee', {}).get('q') in ('malloc', 'calloc', 'realloc') and n['id'] in g12.pos]
+    frees12 = [n for n in fj.walk() if n.get('callee', {}).get('q') == 'free' and n['id'] in g12.pos]
+    if mallocs12:
+        rep.minimum('R15.12', len(frees12), 1, 'free() calls in Data::fromJSON')
+        def under_null_test(n):
+            # the branch taken when the allocation failed holds nothing to free
+            return any(a_['k'] == 'IfStmt' and any(y['k'] in ('BinaryOperator', 'CXXOperatorCallExpr') and y.get('op') == '==' and any(
+                z['k'] in ('GNUNullExpr', 'CXXNullPtrLiteralExpr') or tab.const_of(z) == 0 for z in sub(y)) for y in sub(a_['c'][0])) and any(z is n for z in sub(a_['c'][1] or {})) for a_ in fj.ancestors(n))
+        exits12 = [n['id'] for n in fj.walk() if n['k'] in ('ReturnStmt', 'CXXThrowExpr') and n['id'] in g12.pos and not under_null_test(n)]
+        leaks12 = []
+        for m in mallocs12:
+            for ex_ in exits12:
+                w = g12.can_reach(g12.pos[m['id']], [ex_], avoid=[f_['id'] for f_ in frees12] + [m2['id'] for m2 in mallocs12 if m2 is not m])
+                if w is not None:
+                    leaks12.append(ex_)
+        leaks12 = sorted(set(leaks12))
+        rep.check(not leaks12, 'R15.12', 'fromJSON|token buffer', locstr(fj.nodes[leaks12[0]]) if leaks12 else fj.where(), 'the token array %s' % (
+            'is freed on every path to a return or throw' if not leaks12 else 'is NOT freed on the path to %d exit(s) (first: %s): every refused text leaks its token buffer (2 to 16 bytes per input byte)' % (len(leaks12), locstr(fj.nodes[leaks12[0]]))))
+    else:
+        rep.ok('R15.12', 'fromJSON|token buffer', 'no raw allocation in Data::fromJSON')
 
 
 def nesting_bound(rep, fb, rule='R15.10'):
